@@ -205,6 +205,9 @@ func (this *Dataset) Insert(ctx context.Context, id uuid.UUID, value math.Vector
 	if err := this.checkDimension(&value); err != nil {
 		return err
 	}
+	if err := metadata.Validate(); err != nil {
+		return err
+	}
 
 	partition := this.getPartitionForId(id)
 	if !partition.isOnNode(this.clusterConn.Id()) {
@@ -227,6 +230,9 @@ func (this *Dataset) Insert(ctx context.Context, id uuid.UUID, value math.Vector
 
 func (this *Dataset) Update(ctx context.Context, id uuid.UUID, value math.Vector, metadata index.Metadata) error {
 	if err := this.checkDimension(&value); err != nil {
+		return err
+	}
+	if err := metadata.Validate(); err != nil {
 		return err
 	}
 
@@ -272,16 +278,7 @@ func (this *Dataset) BatchInsert(ctx context.Context, items []*pb.BatchItem) (ma
 		return nil, BatchRequestTooLargerErr
 	}
 
-	errors := make(map[uuid.UUID]error)
-	var checkedItems []*pb.BatchItem
-	for _, item := range items {
-		value := math.Vector(item.GetValue())
-		if err := this.checkDimension(&value); err != nil {
-			errors[uuid.FromBytesOrNil(item.GetId())] = err
-		} else {
-			checkedItems = append(checkedItems, item)
-		}
-	}
+	checkedItems, errors := this.checkBatchItems(items, true)
 
 	errs, err := this.partitionsBatchRequest(
 		ctx, checkedItems,
@@ -306,8 +303,19 @@ func (this *Dataset) PartitionBatchInsert(ctx context.Context, partitionId uuid.
 	if err != nil {
 		return nil, err
 	}
+	if len(items) > maxBatchRequestSize {
+		return nil, BatchRequestTooLargerErr
+	}
 
-	return partition.batchInsert(ctx, items)
+	checkedItems, errors := this.checkBatchItems(items, true)
+	errs, err := partition.batchInsert(ctx, checkedItems)
+	if err != nil {
+		return nil, err
+	}
+	for id, err := range errs {
+		errors[id] = err
+	}
+	return errors, nil
 }
 
 func (this *Dataset) BatchUpdate(ctx context.Context, items []*pb.BatchItem) (map[uuid.UUID]error, error) {
@@ -315,16 +323,7 @@ func (this *Dataset) BatchUpdate(ctx context.Context, items []*pb.BatchItem) (ma
 		return nil, BatchRequestTooLargerErr
 	}
 
-	errors := make(map[uuid.UUID]error)
-	var checkedItems []*pb.BatchItem
-	for _, item := range items {
-		value := math.Vector(item.GetValue())
-		if err := this.checkDimension(&value); err != nil {
-			errors[uuid.FromBytesOrNil(item.GetId())] = err
-		} else {
-			checkedItems = append(checkedItems, item)
-		}
-	}
+	checkedItems, errors := this.checkBatchItems(items, true)
 
 	errs, err := this.partitionsBatchRequest(
 		ctx, checkedItems,
@@ -349,8 +348,19 @@ func (this *Dataset) PartitionBatchUpdate(ctx context.Context, partitionId uuid.
 	if err != nil {
 		return nil, err
 	}
+	if len(items) > maxBatchRequestSize {
+		return nil, BatchRequestTooLargerErr
+	}
 
-	return partition.batchUpdate(ctx, items)
+	checkedItems, errors := this.checkBatchItems(items, true)
+	errs, err := partition.batchUpdate(ctx, checkedItems)
+	if err != nil {
+		return nil, err
+	}
+	for id, err := range errs {
+		errors[id] = err
+	}
+	return errors, nil
 }
 
 func (this *Dataset) BatchRemove(ctx context.Context, items []*pb.BatchItem) (map[uuid.UUID]error, error) {
@@ -358,8 +368,9 @@ func (this *Dataset) BatchRemove(ctx context.Context, items []*pb.BatchItem) (ma
 		return nil, BatchRequestTooLargerErr
 	}
 
-	return this.partitionsBatchRequest(
-		ctx, items,
+	checkedItems, errors := this.checkBatchItems(items, false)
+	errs, err := this.partitionsBatchRequest(
+		ctx, checkedItems,
 		func(client pb.DataManagerClient, ctx context.Context, req *pb.PartitionBatchRequest) (*pb.BatchResponse, error) {
 			return client.PartitionBatchRemove(ctx, req)
 		},
@@ -367,6 +378,13 @@ func (this *Dataset) BatchRemove(ctx context.Context, items []*pb.BatchItem) (ma
 			return partition.batchRemove(ctx, items)
 		},
 	)
+	if err != nil {
+		return nil, err
+	}
+	for id, err := range errs {
+		errors[id] = err
+	}
+	return errors, nil
 }
 
 func (this *Dataset) PartitionBatchRemove(ctx context.Context, partitionId uuid.UUID, items []*pb.BatchItem) (map[uuid.UUID]error, error) {
@@ -374,8 +392,19 @@ func (this *Dataset) PartitionBatchRemove(ctx context.Context, partitionId uuid.
 	if err != nil {
 		return nil, err
 	}
+	if len(items) > maxBatchRequestSize {
+		return nil, BatchRequestTooLargerErr
+	}
 
-	return partition.batchRemove(ctx, items)
+	checkedItems, errors := this.checkBatchItems(items, false)
+	errs, err := partition.batchRemove(ctx, checkedItems)
+	if err != nil {
+		return nil, err
+	}
+	for id, err := range errs {
+		errors[id] = err
+	}
+	return errors, nil
 }
 
 func (this *Dataset) Search(ctx context.Context, query math.Vector, k uint) (index.SearchResult, error) {
@@ -466,6 +495,29 @@ func (this *Dataset) getPartitionForId(id uuid.UUID) *partition {
 	defer this.partitionsMu.RUnlock()
 
 	return this.partitions[utils.UuidMod(id, uint64(this.Meta().GetPartitionCount()))]
+}
+
+// Splits a batch into the items that can be written to the log and the errors of those that cannot: every replica
+// applies a logged item without being able to refuse it, and fails for good on an id it cannot parse
+func (this *Dataset) checkBatchItems(items []*pb.BatchItem, withValue bool) ([]*pb.BatchItem, map[uuid.UUID]error) {
+	errors := make(map[uuid.UUID]error)
+	checkedItems := make([]*pb.BatchItem, 0, len(items))
+	for _, item := range items {
+		id, err := uuid.FromBytes(item.GetId())
+		if err == nil && withValue {
+			value := math.Vector(item.GetValue())
+			err = this.checkDimension(&value)
+			if err == nil {
+				err = index.Metadata(item.GetMetadata()).Validate()
+			}
+		}
+		if err != nil {
+			errors[id] = err
+		} else {
+			checkedItems = append(checkedItems, item)
+		}
+	}
+	return checkedItems, errors
 }
 
 func (this *Dataset) checkDimension(value *math.Vector) error {
